@@ -42,7 +42,8 @@ type c18RealObs struct {
 	Connected int
 	Served    int // got bytes back
 	Ended     int // saw EOF / reset
-	Stranded  int // connected, neither served nor ended within the bound
+	Stranded  int // connected, neither served nor ended within the bound and the second look after it
+	Late      int // served or ended only during the second look (a busy machine): decides nothing
 	Left      int
 	LeftStack string
 }
@@ -135,10 +136,23 @@ func runC18Real(c *c18RealCase) *c18RealObs {
 					}
 					_ = wc.SetReadDeadline(time.Now().Add(8 * time.Second))
 					_, msg, err := wc.ReadMessage()
+					var ne net.Error
+					late := false
+					if len(msg) == 0 && errors.As(err, &ne) && ne.Timeout() {
+						// nothing within the bound: on a machine that is busy enough that proves little, a connection that is really
+						// left behind stays open for good - look again (the raw connection: a timeout has spoilt the WebSocket reader)
+						late = true
+						_ = wc.UnderlyingConn().SetReadDeadline(time.Now().Add(12 * time.Second))
+						buf := make([]byte, 64)
+						var n int
+						n, err = wc.UnderlyingConn().Read(buf)
+						msg = buf[:n]
+					}
 					mu.Lock()
 					defer mu.Unlock()
-					var ne net.Error
 					switch {
+					case late && !(errors.As(err, &ne) && ne.Timeout()):
+						obs.Late++
 					case len(msg) > 0:
 						obs.Served++
 					case errors.As(err, &ne) && ne.Timeout():
@@ -176,10 +190,19 @@ func runC18Real(c *c18RealCase) *c18RealObs {
 					}
 					n = 0
 				}
+				var ne net.Error
+				late := false
+				if n == 0 && errors.As(err, &ne) && ne.Timeout() {
+					// (as above: look again before calling the connection left behind)
+					late = true
+					_ = cn.SetReadDeadline(time.Now().Add(12 * time.Second))
+					n, err = cn.Read(buf)
+				}
 				mu.Lock()
 				defer mu.Unlock()
-				var ne net.Error
 				switch {
+				case late && !(errors.As(err, &ne) && ne.Timeout()):
+					obs.Late++
 				case n > 0:
 					obs.Served++
 				case errors.As(err, &ne) && ne.Timeout():
@@ -246,6 +269,9 @@ func judgeC18Real(c *c18RealCase, obs *c18RealObs, o *Outcome) {
 	if obs.Connected == 0 {
 		o.Class("nobody-connected")
 	}
+	if obs.Late > 0 {
+		o.Class("some-ended-only-after-the-first-bound")
+	}
 	o.NonTrivial = obs.Ended > 0 || (obs.Served > 0 && obs.Served < obs.Connected)
 	if c.Overlap {
 		o.Class("serve-again-before-the-previous-call-returned")
@@ -257,7 +283,7 @@ func judgeC18Real(c *c18RealCase, obs *c18RealObs, o *Outcome) {
 		o.Fail("C18/real/serve-result", "ListenAndServe returned %q", obs.ServeErr)
 	}
 	if obs.Stranded > 0 {
-		o.Fail("C18/real/connection-neither-served-nor-closed/"+c.Kind, "%d of %d connected peers were left on an open connection that nobody serves (no byte and no end within 8 s after the server was closed)", obs.Stranded, obs.Connected)
+		o.Fail("C18/real/connection-neither-served-nor-closed/"+c.Kind, "%d of %d connected peers were left on an open connection that nobody serves (no byte and no end within 20 s after they connected; the server was closed long before)", obs.Stranded, obs.Connected)
 	}
 	if obs.Left > 0 {
 		o.Fail("C18/real/goroutine-left/"+c.Kind, "%d serving goroutine(s) left: %s", obs.Left, obs.LeftStack)
